@@ -99,10 +99,14 @@ def self_test(rep, scenarios, fn, mutate, what, tries=400):
     global _PROP
     _PROP = rep.prop
     done = 0
-    for i, scn in enumerate(scenarios[:tries]):
+    tried = 0
+    for i, scn in enumerate(scenarios):
         bad = mutate(copy.deepcopy(scn))
         if bad is None:
             continue
+        tried += 1                      # `tries` bounds the evaluated candidates, not the scenarios scanned
+        if tried > tries:
+            break
         ok_out = fn(i, scn)
         if ok_out["found"]:
             continue                      # only scenarios that conform can demonstrate the binding
